@@ -74,23 +74,20 @@ namespace vio
       double m = std::frexp(v, &e);  // v = m * 2^e, 0.5 <= |m| < 1
       long long mi = (long long)std::ldexp(m, 53);
       e -= 53;  // v = mi * 2^e
-      while ((mi % 2) == 0 && e < 0) { mi /= 2; ++e; }
-      if (e >= 0)
+      while ((mi % 2) == 0) { mi /= 2; ++e; }   // mi odd
+      // canonical form: a decimal integer when |v| < 2^62, otherwise  m@e  with m odd
+      if (e >= 0 && e <= 62)
       {
-        if (e > 62 - 53) { // may overflow: check
-          long double big = std::ldexp((long double)mi, e);
-          if (std::fabs(big) >= 4.0e18L) { tok("BIG"); return; }
+        long long a = mi < 0 ? -mi : mi;
+        int bits = 0;
+        while ((a >> bits) != 0) ++bits;
+        if (bits + e <= 62)
+        {
+          tok(std::to_string(mi * (1LL << e)));
+          return;
         }
-        long long val = mi;
-        for (int k = 0; k < e; ++k) val *= 2;
-        tok(std::to_string(val));
       }
-      else
-      {
-        if (-e > 61) { tok("BIG"); return; }
-        long long den = 1LL << (-e);
-        tok(std::to_string(mi) + "/" + std::to_string(den));
-      }
+      tok(std::to_string(mi) + "@" + std::to_string(e));
     }
     void qs(const std::vector<double>& v)
     {
